@@ -208,3 +208,36 @@ def phi_alternatives(ctx, ev, res, v, join_bb=None, depth=0):
                 out.append((alt, ev.guards_edge(res, origin, jb)))
         return out
     return [(v, None)]
+
+
+def callee_variant_facts(ctx, ev, call_entry, variant_path):
+    """Facts that hold whenever the inlined callee of `call_entry` returned a value of the given variant shape
+    (e.g. ('Some',)): the intersection of the guards of every own-frame `ret0` of the callee producing that variant."""
+    sub_res = call_entry.get("sub")
+    if sub_res is None:
+        return set()
+    common = None
+    for e in sub_res.log:
+        if e["kind"] != "ret0" or e["res"] is not sub_res:
+            continue
+        v = e["value"]
+        ok = True
+        for n in variant_path:
+            if tag(v) == "variant" and v[2] == n:
+                v = v[3][0] if v[3] else None
+            else:
+                ok = False
+                break
+        if not ok:
+            continue
+        fs = set(canon(f) for f in implied_facts_of(ev, sub_res, e))
+        common = fs if common is None else (common & fs)
+    return common or set()
+
+
+def implied_facts_of(ev, res, e):
+    from sym import implied_facts
+    gs = list(ev.guards(res, e["bb"], e["body"]))
+    for g in e.get("extra_guards", []) or []:
+        gs.append((g, ("eq", 1)))
+    return implied_facts(gs)
